@@ -75,7 +75,7 @@ def request : P String := do
   | "spars" => do let a ← pPairs; let b ← pPairs; pure (showPairs (sparsityIJ a b))
   | "matvec" => do
       let S ← pStruct; let d ← list int; let x ← list int
-      pure (showInts (S.matvec d x))
+      pure (showInts (S.matvecImpl d x))
   | "asmat" => do
       let S ← pStruct; let d ← list int
       pure (showList (fun (t : Nat × Nat × Int) => s!"{t.1},{t.2.1},{t.2.2}") (S.asmatrix d))
